@@ -186,6 +186,25 @@ def apply_all(all_changes: List[Change], recorder: ChangeRecorder):
     ] = defaultdict(list)
     sources: Dict[EnhancedAST, SourceFile] = {}
 
+    # a replaced or deleted node takes everything inside it along (e.g. a nested
+    # snapshot()), changes inside of it are obsolete and would overlap with it
+    replaced = {
+        id(change.node)
+        for change in all_changes
+        if isinstance(change, (Replace, Delete))
+    }
+
+    def inside_replaced(change):
+        node = getattr(change, "node", None)
+        parent = getattr(node, "parent", None)
+        while parent is not None:
+            if id(parent) in replaced:
+                return True
+            parent = getattr(parent, "parent", None)
+        return False
+
+    all_changes = [change for change in all_changes if not inside_replaced(change)]
+
     for change in all_changes:
         if isinstance(change, Delete):
             node = cast(EnhancedAST, change.node).parent
